@@ -97,6 +97,7 @@ type arityEngine struct {
 	summary    map[string]counts
 	inProg     map[string]bool
 	unknown    []string
+	varCtx     []varArgs
 }
 
 // trivia helpers consume only optional newlines/comments: neutral for both sides.
@@ -140,6 +141,13 @@ func (e *arityEngine) callCount(call *ast.CallExpr) (counts, bool) {
 	}
 	switch id.Name {
 	case "expectNext":
+		if call.Ellipsis.IsValid() {
+			if n, ok := e.spreadLen(call.Args[len(call.Args)-1]); ok {
+				return single(len(call.Args) - 2 + n), true
+			}
+			e.unknown = append(e.unknown, "expectNext("+wire.Canon(call.Args[len(call.Args)-1])+"...) (the number of kinds is not a constant the rule can derive)")
+			return single(0), true
+		}
 		return single(len(call.Args) - 1), true
 	case "expectAnyOfNext":
 		return single(1), true
@@ -149,7 +157,119 @@ func (e *arityEngine) callCount(call *ast.CallExpr) (counts, bool) {
 	if triviaHelpers[id.Name] {
 		return single(0), true
 	}
+	// a variadic helper (expectIdentThen(tr, kinds...)) is summarised per number
+	// of variadic arguments it is given
+	if fd := e.p.FuncDecl(e.p.Bebop(), id.Name); fd != nil && fd.Type.Params != nil && len(fd.Type.Params.List) > 0 && !call.Ellipsis.IsValid() {
+		last := fd.Type.Params.List[len(fd.Type.Params.List)-1]
+		if _, variadic := last.Type.(*ast.Ellipsis); variadic && len(last.Names) == 1 {
+			fixed := 0
+			for _, f := range fd.Type.Params.List[:len(fd.Type.Params.List)-1] {
+				fixed += len(f.Names)
+			}
+			if n := len(call.Args) - fixed; n >= 0 {
+				e.varCtx = append(e.varCtx, varArgs{obj: e.p.Bebop().TypesInfo.ObjectOf(last.Names[0]), n: n})
+				c := e.declSummary(fmt.Sprintf("%s/%d", id.Name, n), fd)
+				e.varCtx = e.varCtx[:len(e.varCtx)-1]
+				return c, true
+			}
+		}
+	}
 	return e.funcSummary(id.Name), true
+}
+
+type varArgs struct {
+	obj types.Object
+	n   int
+}
+
+// spreadLen is the length of a slice passed as xs... : the enclosing helper's
+// own variadic parameter (as many as the call being summarised passes), or a
+// local built in straight-line code by make/literal and appends, one of which
+// may spread that parameter.
+func (e *arityEngine) spreadLen(x ast.Expr) (int, bool) {
+	info := e.p.Bebop().TypesInfo
+	id, ok := ast.Unparen(x).(*ast.Ident)
+	if !ok {
+		return 0, false
+	}
+	o := info.ObjectOf(id)
+	paramLen := func(obj types.Object) (int, bool) {
+		if n := len(e.varCtx); n > 0 && e.varCtx[n-1].obj == obj {
+			return e.varCtx[n-1].n, true
+		}
+		return 0, false
+	}
+	if n, ok := paramLen(o); ok {
+		return n, true
+	}
+	var fd *ast.FuncDecl
+	for _, d := range e.p.AllDecls() {
+		if d.Body != nil && d.Body.Pos() <= o.Pos() && o.Pos() < d.Body.End() {
+			fd = d
+		}
+	}
+	if fd == nil {
+		return 0, false
+	}
+	isX := func(ex ast.Expr) bool {
+		i, ok := ast.Unparen(ex).(*ast.Ident)
+		return ok && info.ObjectOf(i) == o
+	}
+	top := map[ast.Stmt]bool{}
+	for _, st := range fd.Body.List {
+		top[st] = true
+	}
+	n, defined, okAll := 0, false, true
+	ast.Inspect(fd.Body, func(k ast.Node) bool {
+		as, isAs := k.(*ast.AssignStmt)
+		if !isAs {
+			return true
+		}
+		for i, l := range as.Lhs {
+			if !isX(l) {
+				continue
+			}
+			if !top[as] || len(as.Lhs) != len(as.Rhs) || as.Pos() >= x.Pos() {
+				okAll = false
+				continue
+			}
+			switch r := ast.Unparen(as.Rhs[i]).(type) {
+			case *ast.CompositeLit:
+				if defined {
+					okAll = false
+				}
+				defined, n = true, len(r.Elts)
+			case *ast.CallExpr:
+				fn, _ := ast.Unparen(r.Fun).(*ast.Ident)
+				switch {
+				case fn != nil && fn.Name == "make" && len(r.Args) >= 2 && !defined:
+					v, isC := constInt(info, r.Args[1])
+					if !isC || v < 0 {
+						okAll = false
+					}
+					defined, n = true, v
+				case fn != nil && fn.Name == "append" && len(r.Args) >= 1 && isX(r.Args[0]) && defined:
+					if !r.Ellipsis.IsValid() {
+						n += len(r.Args) - 1
+					} else if sid, ok := ast.Unparen(r.Args[len(r.Args)-1]).(*ast.Ident); ok {
+						if m, ok := paramLen(info.ObjectOf(sid)); ok {
+							n += len(r.Args) - 2 + m
+						} else {
+							okAll = false
+						}
+					} else {
+						okAll = false
+					}
+				default:
+					okAll = false
+				}
+			default:
+				okAll = false
+			}
+		}
+		return true
+	})
+	return n, defined && okAll
 }
 
 func (e *arityEngine) declSummary(name string, fd *ast.FuncDecl) counts {
@@ -576,11 +696,86 @@ func checkC16(c *core.Ctx) {
 		}
 		return true
 	})
+	// or through a table: if f, ok := table[t.kind]; ok { …write f(…)… } with
+	// table a package-level map literal keyed by token kind
+	tableUnknown := false
+	ast.Inspect(ff.Body, func(n ast.Node) bool {
+		ifs, ok := n.(*ast.IfStmt)
+		if !ok {
+			return true
+		}
+		var ix *ast.IndexExpr
+		if as, ok := ifs.Init.(*ast.AssignStmt); ok && len(as.Rhs) == 1 {
+			ix, _ = ast.Unparen(as.Rhs[0]).(*ast.IndexExpr)
+		}
+		if ix == nil {
+			return true
+		}
+		mt, isMap := info.TypeOf(ix.X).Underlying().(*types.Map)
+		if !isMap {
+			return true
+		}
+		if nt, ok := mt.Key().(*types.Named); !ok || nt.Obj().Name() != "tokenKind" {
+			return true
+		}
+		if sel, ok := ast.Unparen(ix.Index).(*ast.SelectorExpr); !ok || sel.Sel.Name != "kind" {
+			return true
+		}
+		writes := false
+		ast.Inspect(ifs.Body, func(m ast.Node) bool {
+			if x, ok := m.(*ast.CallExpr); ok {
+				if sel, ok := x.Fun.(*ast.SelectorExpr); ok && (sel.Sel.Name == "SafeWrite" || sel.Sel.Name == "Write") {
+					writes = true
+				}
+			}
+			return true
+		})
+		var lit *ast.CompositeLit
+		if id, ok := ast.Unparen(ix.X).(*ast.Ident); ok {
+			if v, ok := info.ObjectOf(id).(*types.Var); ok && v.Parent() == pkg.Types.Scope() {
+				for _, f := range pkg.Syntax {
+					for _, d := range f.Decls {
+						gd, ok := d.(*ast.GenDecl)
+						if !ok {
+							continue
+						}
+						for _, sp := range gd.Specs {
+							vs, ok := sp.(*ast.ValueSpec)
+							if !ok {
+								continue
+							}
+							for i, nm := range vs.Names {
+								if info.ObjectOf(nm) == v && i < len(vs.Values) {
+									lit, _ = ast.Unparen(vs.Values[i]).(*ast.CompositeLit)
+								}
+							}
+						}
+					}
+				}
+			}
+		}
+		if lit == nil || !writes {
+			tableUnknown = true
+			return true
+		}
+		for _, el := range lit.Elts {
+			if kv, ok := el.(*ast.KeyValueExpr); ok {
+				if kid, ok := ast.Unparen(kv.Key).(*ast.Ident); ok && strings.HasPrefix(kid.Name, "tokenKind") {
+					fmtKinds[kid.Name] = true
+				}
+			}
+		}
+		return true
+	})
 	var ks []string
 	for k := range recordKinds {
 		ks = append(ks, k)
 	}
 	sort.Strings(ks)
+	if tableUnknown {
+		c.Undecide("format dispatches on the token kind through a table the coverage rule R1 cannot read (not a package-level map literal, or its arm does not write)")
+		ks = nil
+	}
 	c.Count("parser_top_level_kinds", len(ks))
 	c.Floor("parser_top_level_kinds", 7)
 	if top == nil || top.Tag == nil || !strings.HasSuffix(wire.Canon(top.Tag), ".kind") || len(top.Body.List) < 4 {
